@@ -1043,6 +1043,9 @@ class Translation:
         self.polar_aliases = {}
         self.all_labels = ()
         self.presets = {}
+        self.validators_symbols = ()
+        self.validators_aliases = {}
+        self.default_probe_keys = ()
         self.guards = {}
         self.order = []
 
@@ -1066,6 +1069,15 @@ class Translation:
         out.append("Definition polar_aliases : list (string * string) := [%s]." % "; ".join(
             '("%s"%%string, "%s"%%string)' % kv for kv in self.polar_aliases.items()))
         out.append("Definition all_labels : list string := %s." % strlist(self.all_labels))
+        out.append("(* ABERRATION_PRESETS (direct_ptycho_utils.py), every preset *)")
+        out.append("Definition presets : list (string * list string) := [%s]." % "; ".join(
+            '("%s"%%string, %s)' % (k, strlist(v)) for k, v in self.presets.items()))
+        out.append("(* the tables local to validators.validate_aberration_coefficients *)")
+        out.append("Definition validators_polar_symbols : list string := %s." % strlist(self.validators_symbols))
+        out.append("Definition validators_polar_aliases : list (string * string) := [%s]." % "; ".join(
+            '("%s"%%string, "%s"%%string)' % kv for kv in self.validators_aliases.items()))
+        out.append("(* keys of probe_models.ProbeBase.DEFAULT_PROBE_PARAMS *)")
+        out.append("Definition default_probe_keys : list string := %s." % strlist(self.default_probe_keys))
         out.append("")
         for name in self.order:
             fn = self.fns[name]
@@ -1203,6 +1215,78 @@ def _params_of(fd, n, what):
     return names
 
 
+def _local_literals(fdef, names):
+    """literal values assigned (once, at the top level of the body) to the given names"""
+    out = {}
+    for n in fdef.body:
+        if isinstance(n, ast.Assign) and len(n.targets) == 1 and isinstance(n.targets[0], ast.Name) \
+                and n.targets[0].id in names:
+            if n.targets[0].id in out:
+                raise TranslateError("%s assigned twice in %s" % (n.targets[0].id, fdef.name))
+            try:
+                out[n.targets[0].id] = ast.literal_eval(n.value)
+            except Exception:  # noqa
+                raise TranslateError("%s in %s is not a literal" % (n.targets[0].id, fdef.name))
+    return out
+
+
+def _imports_from_complex_probe(tree, name):
+    for n in ast.walk(tree):
+        if isinstance(n, ast.ImportFrom) and (n.module or "").endswith("complex_probe"):
+            if any(a.name == name and a.asname in (None, name) for a in n.names):
+                return True
+    return False
+
+
+def _validators_tables(src_root: Path, T):
+    """POLAR_SYMBOLS / POLAR_ALIASES as seen by validators.validate_aberration_coefficients: its own
+    literal copies, or (accepted as identical) the names imported from complex_probe"""
+    path = Path(src_root) / "quantem" / "core" / "utils" / "validators.py"
+    tree = ast.parse(path.read_text())
+    fd = [n for n in tree.body if isinstance(n, ast.FunctionDef) and n.name == "validate_aberration_coefficients"]
+    if len(fd) != 1:
+        raise TranslateError("validators.validate_aberration_coefficients not found")
+    loc = _local_literals(fd[0], ("POLAR_SYMBOLS", "POLAR_ALIASES"))
+    res = {}
+    for name, fallback in (("POLAR_SYMBOLS", T.polar_symbols), ("POLAR_ALIASES", T.polar_aliases)):
+        if name in loc:
+            res[name] = loc[name]
+        elif _imports_from_complex_probe(tree, name):
+            res[name] = fallback
+        else:
+            mod = [n for n in tree.body if isinstance(n, ast.Assign) and len(n.targets) == 1
+                   and isinstance(n.targets[0], ast.Name) and n.targets[0].id == name]
+            if len(mod) != 1:
+                raise TranslateError("validators.py: cannot find the table %s used by "
+                                     "validate_aberration_coefficients" % name)
+            try:
+                res[name] = ast.literal_eval(mod[0].value)
+            except Exception:  # noqa
+                raise TranslateError("validators.py: %s is not a literal" % name)
+    sy, al = res["POLAR_SYMBOLS"], res["POLAR_ALIASES"]
+    if not (isinstance(sy, (tuple, list)) and all(isinstance(x, str) for x in sy) and isinstance(al, dict)
+            and all(isinstance(k, str) and isinstance(v, str) for k, v in al.items())):
+        raise TranslateError("validators.py: tables are not (tuple of strings, dict of strings)")
+    return tuple(sy), dict(al)
+
+
+def _default_probe_keys(src_root: Path):
+    path = Path(src_root) / "quantem" / "diffractive_imaging" / "probe_models.py"
+    tree = ast.parse(path.read_text())
+    for n in tree.body:
+        if isinstance(n, ast.ClassDef) and n.name == "ProbeBase":
+            for m in n.body:
+                if isinstance(m, ast.Assign) and len(m.targets) == 1 and isinstance(m.targets[0], ast.Name) \
+                        and m.targets[0].id == "DEFAULT_PROBE_PARAMS" and isinstance(m.value, ast.Dict):
+                    keys = []
+                    for k in m.value.keys:
+                        if not (isinstance(k, ast.Constant) and isinstance(k.value, str)):
+                            raise TranslateError("ProbeBase.DEFAULT_PROBE_PARAMS has a non-literal key")
+                        keys.append(k.value)
+                    return tuple(keys)
+    raise TranslateError("ProbeBase.DEFAULT_PROBE_PARAMS (dict literal) not found in probe_models.py")
+
+
 def translate(src_root: Path) -> Translation:
     src = Sources(src_root)
     T = Translation()
@@ -1213,6 +1297,13 @@ def translate(src_root: Path) -> Translation:
     T.all_labels = tuple(presets["all"])
     if not all(isinstance(x, str) for x in T.polar_symbols + T.all_labels):
         raise TranslateError("symbol tables are not tuples of strings")
+    if not (isinstance(presets, dict) and all(isinstance(k, str) and isinstance(v, (list, tuple))
+                                              and all(isinstance(x, str) for x in v) for k, v in presets.items())):
+        raise TranslateError("ABERRATION_PRESETS is not a dict of lists of strings")
+    if not all(isinstance(k, str) and isinstance(v, str) for k, v in T.polar_aliases.items()):
+        raise TranslateError("POLAR_ALIASES is not a dict of strings")
+    T.validators_symbols, T.validators_aliases = _validators_tables(src_root, T)
+    T.default_probe_keys = _default_probe_keys(src_root)
     A, P, L = E(("var", "alpha")), E(("var", "phi")), E(("var", "lambda"))
 
     # aberration_surface ------------------------------------------------------------------
